@@ -16,7 +16,7 @@ PROPS = ('C01', 'C02', 'C03', 'C04', 'C05', 'C06', 'C07', 'C08', 'C09', 'C19')
 NCPU = int(os.environ.get('VERIF_JOBS', '16'))
 
 BUDGET = {
-    'quick': dict(explore_s=420, pairs_s=75, pair_depth=8, pairN=2, validate=400),
+    'quick': dict(explore_s=540, pairs_s=75, pair_depth=8, pairN=2, validate=400),
     'thorough': dict(explore_s=2700, pairs_s=900, pair_depth=14, pairN=3, validate=3000),
 }
 
